@@ -34,7 +34,7 @@ def client_api_action(r, p=gv.SMALL):
     if x < 0.22:
         return ("bind_simple", r.choice([None, "", "cn=a", gv.g_text(r, p)]), r.choice([None, "", "pw", gv.g_text(r, p)]), _ctl(r))
     if x < 0.34:
-        return ("bind_sasl", r.choice(["GSSAPI", "", "EXTERNAL"]), r.choice([None, "cn=a"]), r.choice([None, b"", b"tok"]), _ctl(r))
+        return ("bind_sasl", r.choice(["GSSAPI", "", "EXTERNAL", "gssapi", "Digest-md5", "x-\u00df\ufb01", "\u0131"]), r.choice([None, "cn=a"]), r.choice([None, b"", b"tok"]), _ctl(r))
     if x < 0.62:
         flt = gv.g_filter(r, p) if r.random() < 0.5 else None
         return ("search", r.choice([None, "", "dc=x"]), r.choice([0, 1, 2]), r.choice([0, 1, 2, 3]), r.choice([0, 5, 1000, 2**30, 2**30 + 1, 2**31 - 1]), r.choice([0, 60, 2**30 + 7, 2**31 - 1]),
@@ -96,6 +96,8 @@ def crafted_for_client(r, drv: Driver, retired):
 
 def crafted_for_server(r, drv: Driver, fresh_id: int):
     x = r.random()
+    if r.random() < 0.06 and 0 not in drv.model.ip:
+        fresh_id = 0  # a client that numbers its first request 0 (RFC 4511 reserves 0 for unsolicited notifications; the library does not refuse it)
     if x < 0.12:
         return r.choice(GARBAGE)
     if x < 0.2:
